@@ -212,9 +212,9 @@ CHECKS = {
                 "idempotent; the duration parser never panics. Tied to the code by running the real Config::load on every "
                 "single-fault mutation of valid documents and comparing verdict and accepted configuration with the extracted "
                 "model; the property's own list of malformations is evaluated on the implementation's verdict by an independent "
-                "classifier.",
+                "classifier. The real binary: a valid sandboxed document with one fault at a time, `vsb backup|upload|restore` under strace - non-zero exit, nothing executed, no inet connect, no path at or below the storage / items / restore target touched, sandbox unchanged.",
         "note": "Partial: YAML parsing and scalar resolution (serde_yaml) and validator's derive semantics are trusted; 'before any "
-                "storage or network access' rests on main.rs calling Config::load before dispatch (trace check not built yet). "
+                "storage or network access and without side effects' is observed, not proved: the real `vsb backup|upload|restore` under strace with one fault of the property's list at a time (vlib/cfgrun.py). "
                 "Three defects found by this check were repaired in /repo (F4a, F4b, F8; see KNOWN_FINDINGS.json).",
         "technique": "Coq proof about an acceptance model + exhaustive single-fault mutation correspondence with the real loader",
         "design": "7/C20",
